@@ -19,6 +19,7 @@ CLAIMED = {
     "C14": ("sched", "§6 C14", "Same executions plus unschedulable inputs (external predecessor without dates, future fixed end, never-available resources, hierarchy-closed cycles) under a watchdog; TLC classifies the outcome and demands RuntimeError exactly for Unschedulable(I)."),
     "C12": ("crit", "§6 C12", "CritPath.tla defines the zero-float leaves and, independently, the leaves on a longest chain; TLC checks the two definitions equal on every bounded input (MC_CritPath) and compares WBS.critical_path() of the real code with Critical(I) on every forest shape of <=4/5 tasks with link placements on leaves and summaries, ties, zero lengths, and integer/dyadic/decimal amounts, plus seeded random WBSs."),
     "C18": ("query", "§6 C18", "Query.tla defines Matches/Select for plain keywords, the twelve suffixes (with its own regular-expression search) and callables, and the effect of bulk assignment and remove_all; seeded worlds with present/absent/None attributes are queried through every list of the API and TLC compares the returned list (order and members), the unchanged world, the bulk-assigned attributes and the post-removal structure with the model."),
+    "C10": ("copy", "§6 C10", "In every reachable state of the real objects of the small universe (shared ids, 2 WBSs, links to outside tasks) each WBS is cloned and sub-treed for every selection of <=2 roots; TLC judges the copy against TaskGraph.tla's state: members, fresh objects, owner, field values, root order, hierarchy, links inside the selection reproduced, links to other members dropped, links to outside tasks kept on the same objects (mirror side included), WBS attributes, source unchanged; independence is probed by mutating each side."),
 }
 NOT_YET = {}
 ALL = ["C%02d" % i for i in range(1, 21)]
@@ -53,6 +54,8 @@ def main():
                      "kind_free_text": "TLA+ CritPath/MC_CritPath/CritTrace"},
                     {"name": "query", "path": "/verif/harness/eng_query.py", "serves_properties": ["C18"],
                      "kind_free_text": "TLA+ Query/QueryTrace"},
+                    {"name": "copy", "path": "/verif/harness/eng_copy.py", "serves_properties": ["C10"],
+                     "kind_free_text": "TLA+ CopyTrace (TaskGraph definitions); clone/subtree on every reachable state"},
                     {"name": "calendar", "path": "/verif/harness/eng_calendar.py", "serves_properties": ["C17"],
                      "kind_free_text": "TLA+ Calendar/CalendarTrace; enumerated expression trees judged by TLC"}],
         "checks": checks,
